@@ -458,6 +458,22 @@ async fn run_script(connect: bool, early: Vec<u8>, steps: Vec<String>) -> String
                 }
                 out.push("-".to_string());
             }
+            "pflood" => {
+                // the peer sends n copies of one message to a local process, back to back
+                let to = pid_arg(&mut t, &pids);
+                let n: usize = t.num();
+                let body = read_term(&mut t);
+                if let Some(p) = peer.as_mut() {
+                    let one = send_frame_bytes(&to, &body);
+                    let mut all = Vec::with_capacity(one.len() * n);
+                    for _ in 0..n {
+                        all.extend_from_slice(&one);
+                    }
+                    let _ = p.wr.write_all(&all).await;
+                    let _ = p.wr.flush().await;
+                }
+                out.push("-".to_string());
+            }
             "frame" | "tick" | "sync" | "reply" | "replystale" | "replyto" | "overlong" | "close" => {
                 let Some(p) = peer.as_mut() else {
                     out.push("-".to_string());
